@@ -669,8 +669,9 @@ class Plucker(SMUserList):
         """
         l1 = self
         if l1 | l2:
-            # lines are parallel
-            l = np.cross(l1.w, l1.v - l2.v * np.dot(l1.w, l2.w) / dot(l2.w, l2.w)) / np.linalg.norm(l1.w)
+            # lines are parallel, difference of the moments about unit directions
+            s = 1 if np.dot(l1.w, l2.w) > 0 else -1
+            l = np.linalg.norm(l1.v / np.linalg.norm(l1.w) - s * l2.v / np.linalg.norm(l2.w))
         else:
             # lines are not parallel
             if abs(l1 * l2) < 10*_eps:
@@ -678,7 +679,7 @@ class Plucker(SMUserList):
                 l = 0
             else:
                 # lines don't intersect, find closest distance
-                l = abs(l1 * l2) / np.linalg.norm(np.cross(l1.w, l2.w))**2
+                l = abs(l1 * l2) / np.linalg.norm(np.cross(l1.uw, l2.uw))
         return l
 
     
